@@ -266,12 +266,13 @@ def labels_and_copy(ctx, obs, q):
         if ds is None or not isinstance(ds[0], ast.Name):
             obs.unk('PAIR', q, 'dataset handed to _build_rdms is the sorted copy', 'ds argument is not a plain name')
             continue
-        ds_defs = r.load_defs.get(id(ds[0]), frozenset())
+        from ..rules.common import root_defs
+        ds_defs = root_defs(r, ds[0])
         recv_defs = set()
         for s in subs + sorts:
             rv = s.node.func.value
             if isinstance(rv, ast.Name):
-                recv_defs |= set(r.load_defs.get(id(rv), frozenset()))
+                recv_defs |= set(root_defs(r, rv))
         obs.check(bool(ds_defs) and ds_defs <= recv_defs, 'PAIR', q,
                   'labels: _build_rdms receives the object that was sorted and split into folds',
                   f'`{norm(ds[0])}` handed to _build_rdms is not the object on which sort_by/subset_obs were called: '
